@@ -493,15 +493,51 @@ void c10_case(Ctx& c, Rng& r) {
         if (oc == CombineOutcome::Other || (oc == CombineOutcome::Value && out != secret))
             c.violation("C10:combine:superset-duplicate-wrong-secret", desc().kv("outcome", static_cast<int>(oc)).str());
     }
-    // index 0: no crash, no foreign exception type
+    // index 0: no crash, no foreign exception type; and, as for any share set ("in any order"), the outcome must not
+    // depend on where in the set the malformed share sits: either every ordering is refused or every ordering
+    // yields the same bytes
     {
         std::vector<crypto::ShamirShare> sub(shares.begin(), shares.begin() + t);
         sub[r.below(t)].index = 0;
+        if (r.chance(1, 2)) sub[0].value = r.arr<32>();
         std::array<std::uint8_t, 32> out{};
         std::string what;
         const auto oc = try_combine(sub, static_cast<std::uint8_t>(t), out, what);
         c.note("combine.index-zero");
         if (oc == CombineOutcome::Other) c.violation("C10:combine:index-zero-foreign-exception", desc().kv("what", what).str());
+        const int rotations = std::min(t, 6);
+        for (int rot = 1; rot <= rotations; ++rot) {
+            auto perm = sub;
+            if (rot < rotations) std::rotate(perm.begin(), perm.begin() + (rot % t), perm.end());
+            else std::shuffle(perm.begin(), perm.end(), r);
+            std::array<std::uint8_t, 32> out2{};
+            std::string what2;
+            const auto oc2 = try_combine(perm, static_cast<std::uint8_t>(t), out2, what2);
+            c.note("combine.index-zero-orderings");
+            if (oc2 != oc || (oc == CombineOutcome::Value && out2 != out)) {
+                std::string ix;
+                for (std::size_t i = 0; i < perm.size() && i < 40; ++i) ix += std::to_string(perm[i].index) + ",";
+                c.violation("C10:combine:outcome-depends-on-share-order:index-zero", desc().kv("order", ix).kv("first_outcome", static_cast<int>(oc)).kv("this_outcome", static_cast<int>(oc2)).str());
+                break;
+            }
+        }
+    }
+    // the same order-independence for sets with a repeated index (exactly t shares)
+    if (t >= 3) {
+        std::vector<crypto::ShamirShare> sub(shares.begin(), shares.begin() + t);
+        sub[1].index = sub[0].index;
+        if (r.chance(1, 2)) { sub[0].value.fill(0); sub[1].value.fill(0); }
+        std::array<std::uint8_t, 32> out{};
+        std::string what;
+        const auto oc = try_combine(sub, static_cast<std::uint8_t>(t), out, what);
+        for (int rot = 1; rot < std::min(t, 5); ++rot) {
+            auto perm = sub;
+            std::rotate(perm.begin(), perm.begin() + rot, perm.end());
+            std::array<std::uint8_t, 32> out2{};
+            const auto oc2 = try_combine(perm, static_cast<std::uint8_t>(t), out2, what);
+            c.note("combine.duplicate-orderings");
+            if (oc2 != oc) { c.violation("C10:combine:outcome-depends-on-share-order:duplicate-index", desc().kv("rotation", rot).str()); break; }
+        }
     }
     c.sig(hx::mix(t, n));
     if (c.cur_case % 61 == 3) c.sample(desc().kv("shares", shares.size()).kv("first_index", shares[0].index).str());
